@@ -1,5 +1,6 @@
 import Clover.Proofs.IterSound
-import Clover.Props.C02
+import Clover.Props.C17
+import Clover.Proofs.PlannerModel
 /-! # A store that represents an abstract state has the index-block shape the scan theorems need
 
 `Props/C17` and `Props/C02` are stated for a store `pre ++ (block c f E ++ post)`.  Here: a sorted
@@ -90,5 +91,411 @@ theorem prefix_decomp (p : Bytes) : (w : KVS) → (hs : KSorted w) →
             simp at this
         refine ⟨[], e :: w, ?_, by simp, hafter⟩
         rw [hnone]; rfl
+
+/-! ## 2. the block of a catalogued index -/
+
+theorem ib_kvGet_some_mem (σ : KVS) (k : Bytes) (v : SVal) (h : kvGet σ k = some v) : (k, v) ∈ σ := by
+  rw [kvGet_eq_assoc] at h
+  exact assoc_some_mem' k v σ h
+
+/-- a stored entry under the prefix of a catalogued index is the empty-valued entry of a live document -/
+theorem entry_live_unit (s : Spec.State) (w : KVS) (hw : WF s) (hr : Rep s w) (c : Bytes) (coll : Spec.Coll)
+    (hl : Spec.lookup c s = some coll) (f : Bytes) (hf : f ∈ coll.indexes) (e : Bytes × SVal) (he : e ∈ w)
+    (hp : isPrefix (idxPrefix c f) e.1 = true) :
+    ∃ id d, Spec.lookup id coll.docs = some d ∧ e = (CV.idxKey c f (d.get f) id, SVal.unit) := by
+  obtain ⟨hc, hcw⟩ := wf_lookup_clean s hw c coll hl
+  obtain ⟨k, v⟩ := e
+  simp only at hp
+  obtain ⟨rest, hk⟩ := (isPrefix_iff _ _).1 hp
+  have hkf : KeyField c k f := ⟨rest, hk⟩
+  have hg : kvGet w k = some v := mem_kvGet w hr.1 (k, v) he
+  have hd : HoldsD c ⟨coll.indexes, coll.docs⟩ k v := (parts_of_owned c coll w
+    (fun k v ho => rep_owned s w hw hr c coll hl k v ho)).2 k v (Or.inr ⟨f, rest, hk⟩) |>.1 hg
+  obtain ⟨_, id, d, hld, ek, ev⟩ := (holdsD_field c hc coll.indexes hcw.fieldsClean coll.docs f (hcw.fieldsClean f hf) k v hkf).1 hd
+  exact ⟨id, d, hld, by rw [ek, ev]⟩
+
+/-- conversely the entry of every live document is stored -/
+theorem live_entry_stored (s : Spec.State) (w : KVS) (hw : WF s) (hr : Rep s w) (c : Bytes) (coll : Spec.Coll)
+    (hl : Spec.lookup c s = some coll) (f : Bytes) (hf : f ∈ coll.indexes) (id : Bytes) (d : Doc)
+    (hld : Spec.lookup id coll.docs = some d) : (CV.idxKey c f (d.get f) id, SVal.unit) ∈ w := by
+  have hown : Owns c (CV.idxKey c f (d.get f) id) := Or.inr (Or.inr ⟨f, goKeyTail (d.get f) ++ id, rfl⟩)
+  have hh : HoldsC c coll (CV.idxKey c f (d.get f) id) SVal.unit := .data _ _ (.idx f id d hf hld)
+  exact ib_kvGet_some_mem w _ _ ((rep_owned s w hw hr c coll hl _ _ hown).2 hh)
+
+theorem exists_map_of_forall {α β : Type} (g : β → α) (P : β → Prop) : (L : List α) →
+    (∀ e ∈ L, ∃ x, e = g x ∧ P x) → ∃ E : List β, L = E.map g ∧ ∀ x ∈ E, P x
+  | [], _ => ⟨[], rfl, by simp⟩
+  | a :: t, h => by
+    obtain ⟨x, hx, px⟩ := h a (by simp)
+    obtain ⟨E, hE, hP⟩ := exists_map_of_forall g P t (fun e he => h e (List.mem_cons_of_mem _ he))
+    refine ⟨x :: E, by rw [List.map_cons, ← hx, ← hE], ?_⟩
+    intro y hy
+    rcases List.mem_cons.1 hy with e | e
+    · rw [e]; exact px
+    · exact hP y e
+
+/-- key order is value order: an entry stored before another has a value that is not greater -/
+theorem ekey_lt_le (c f : Bytes) (a b : IEntry) (da : Dom numOK a.1) (db : Dom numOK b.1)
+    (h : lexLt (ekey c f a) (ekey c f b) = true) : Pl.leE vord a b := by
+  show cmp nkey a.1 b.1 ≤ 0
+  by_cases hle : cmp nkey a.1 b.1 ≤ 0
+  · exact hle
+  · exfalso
+    have anti := cmp_antisymm nkey a.1 b.1
+    have hlt : cmp nkey b.1 a.1 < 0 := by omega
+    have d := (c10_key_order b.1 a.1 db da).1 hlt b.2 a.2
+    have h2 : lexLt (ekey c f b) (ekey c f a) = true := by
+      show lexLt (Keys.idxPrefix c f ++ (goKeyTail b.1 ++ b.2)) (Keys.idxPrefix c f ++ (goKeyTail a.1 ++ a.2)) = true
+      rw [lexLt_prefix]; exact diffLt_imp_lexLt _ _ d
+    have := lexLt_asymm _ _ h2
+    simp [h] at this
+
+/-- the (value, id) pairs of a collection's documents for the index on `f` -/
+def idxPairs (coll : Spec.Coll) (f : Bytes) : List IEntry := coll.docs.map (fun e => (e.2.get f, e.1))
+
+theorem idxPairs_nodup (coll : Spec.Coll) (hcw : CollWF coll) (f : Bytes) : (idxPairs coll f).Nodup := by
+  have h1 : coll.docs.Pairwise (fun a b => a.1 ≠ b.1) := List.pairwise_map.1 hcw.idsDistinct
+  exact List.pairwise_map.2 (h1.imp (fun h e => h (congrArg Prod.snd e)))
+
+/-- **The block of a catalogued index**: the stored keys under the index prefix are exactly the
+    entries of the collection's documents, one per document, in value order. -/
+theorem index_block (s : Spec.State) (w : KVS) (hw : WF s) (hr : Rep s w) (c : Bytes) (coll : Spec.Coll)
+    (hl : Spec.lookup c s = some coll) (f : Bytes) (hf : f ∈ coll.indexes)
+    (hdom : ∀ e ∈ coll.docs, Dom numOK (e.2.get f)) :
+    ∃ E : List IEntry, w.filter (fun e => isPrefix (idxPrefix c f) e.1) = block c f E ∧
+      E.Perm (coll.docs.map (fun e => (e.2.get f, e.1))) ∧ E.Pairwise (Pl.leE vord) := by
+  obtain ⟨hc, hcw⟩ := wf_lookup_clean s hw c coll hl
+  have hFs : KSorted (w.filter (fun e => isPrefix (idxPrefix c f) e.1)) := List.Pairwise.sublist List.filter_sublist hr.1
+  obtain ⟨E, hE, hP⟩ := exists_map_of_forall (fun ie : IEntry => (ekey c f ie, SVal.unit))
+    (fun ie => ∃ d, Spec.lookup ie.2 coll.docs = some d ∧ ie.1 = d.get f)
+    (w.filter (fun e => isPrefix (idxPrefix c f) e.1)) (by
+      intro e he
+      obtain ⟨hew, hep⟩ := List.mem_filter.1 he
+      obtain ⟨id, d, hld, ee⟩ := entry_live_unit s w hw hr c coll hl f hf e hew hep
+      exact ⟨(d.get f, id), ee, d, hld, rfl⟩)
+  have hmemD : ∀ a ∈ E, a ∈ idxPairs coll f := by
+    intro a ha
+    obtain ⟨d, hld, e1⟩ := hP a ha
+    exact List.mem_map.2 ⟨(a.2, d), lookup_some_mem a.2 d _ hld, Prod.ext e1.symm rfl⟩
+  refine ⟨E, hE, ?_, ?_⟩
+  · -- no duplicates on either side, same members
+    have hEnd : E.Nodup := by
+      have h1 := ksorted_keys_nodup _ hFs
+      rw [hE, List.map_map] at h1
+      exact (List.pairwise_map.1 h1).imp (fun h e => h (by rw [e]))
+    refine (List.perm_ext_iff_of_nodup hEnd (idxPairs_nodup coll hcw f)).2 (fun a => ⟨hmemD a, ?_⟩)
+    intro ha
+    obtain ⟨e, hed, ea⟩ := List.mem_map.1 ha
+    have hld : Spec.lookup e.1 coll.docs = some e.2 := mem_lookup_some e.1 e.2 _ hcw.idsDistinct hed
+    have hst := live_entry_stored s w hw hr c coll hl f hf e.1 e.2 hld
+    have hin : (CV.idxKey c f (e.2.get f) e.1, SVal.unit) ∈ w.filter (fun e => isPrefix (idxPrefix c f) e.1) :=
+      List.mem_filter.2 ⟨hst, isPrefix_append _ _⟩
+    rw [hE] at hin
+    obtain ⟨ie, hie, eie⟩ := List.mem_map.1 hin
+    obtain ⟨d', hld', e1⟩ := hP ie hie
+    have hk : ekey c f ie = CV.idxKey c f (e.2.get f) e.1 := congrArg Prod.fst eie
+    have hid : ie.2 = e.1 := keyId_unique c (ekey c f ie) ie.2 e.1 hc
+      (collWF_lookup coll hcw ie.2 d' hld').1.1 (collWF_lookup coll hcw e.1 e.2 hld).1.1
+      (Or.inr ⟨f, goKeyTail ie.1, rfl⟩) (Or.inr ⟨f, goKeyTail (e.2.get f), hk⟩)
+    rw [hid, hld] at hld'
+    simp only [Option.some.injEq] at hld'
+    have : ie = a := by rw [← ea]; exact Prod.ext (by rw [e1, hld']) hid
+    rw [← this]; exact hie
+  · -- sorted by key, hence by value
+    have h1 : E.Pairwise (fun a b => lexLt (ekey c f a) (ekey c f b) = true) := by
+      have := hFs
+      rw [hE] at this
+      exact List.pairwise_map.1 this
+    have hdomE : ∀ a ∈ E, Dom numOK a.1 := by
+      intro a ha
+      obtain ⟨e, hed, ea⟩ := List.mem_map.1 (hmemD a ha)
+      rw [← ea]; exact hdom e hed
+    exact h1.imp_of_mem (fun ha hb h => ekey_lt_le c f _ _ (hdomE _ ha) (hdomE _ hb) h)
+
+/-! ## 3. index scans miss no document -/
+
+theorem idWF_idOK (id : Bytes) (h : IdWF id) : IdOK id := ⟨h.1, fun b hb => (h.2 b hb).2⟩
+
+/-- **The store has the shape the scan theorems (`Props/C17`, `Props/C02`) are stated for**, with
+    the block of index `f` holding exactly the (value, id) pairs of the collection's documents. -/
+theorem store_shape (s : Spec.State) (w : KVS) (hw : WF s) (hr : Rep s w) (c : Bytes) (coll : Spec.Coll)
+    (hl : Spec.lookup c s = some coll) (f : Bytes) (hf : f ∈ coll.indexes)
+    (hdom : ∀ e ∈ coll.docs, Dom numOK (e.2.get f)) :
+    ∃ pre post E, w = pre ++ (block c f E ++ post) ∧
+      (∀ e ∈ pre, ∀ t, lexLt e.1 (Keys.idxPrefix c f ++ t) = true) ∧
+      (∀ e ∈ post, ∀ t, lexLt (Keys.idxPrefix c f ++ t) e.1 = true) ∧
+      (∀ e ∈ E, Dom numOK e.1 ∧ IdOK e.2) ∧ E.Pairwise (Pl.leE vord) ∧
+      E.Perm (coll.docs.map (fun e => (e.2.get f, e.1))) := by
+  obtain ⟨_, hcw⟩ := wf_lookup_clean s hw c coll hl
+  obtain ⟨pre, post, hdec, hpre, hpost⟩ := prefix_decomp (Keys.idxPrefix c f) w hr.1
+  obtain ⟨E, hF, hperm, hsorted⟩ := index_block s w hw hr c coll hl f hf hdom
+  rw [hF] at hdec
+  refine ⟨pre, post, E, hdec, hpre, hpost, ?_, hsorted, hperm⟩
+  intro a ha
+  obtain ⟨e, hed, ea⟩ := List.mem_map.1 (hperm.mem_iff.1 ha)
+  rw [← ea]
+  exact ⟨hdom e hed, idWF_idOK e.1 (hcw.idsWF e hed).1⟩
+
+/-- a full iteration of a catalogued index fetches every document of the collection -/
+theorem idxAll_complete (s : Spec.State) (w : KVS) (hw : WF s) (hr : Rep s w) (c : Bytes) (coll : Spec.Coll)
+    (hl : Spec.lookup c s = some coll) (f : Bytes) (hf : f ∈ coll.indexes)
+    (hdom : ∀ e ∈ coll.docs, Dom numOK (e.2.get f)) (rev : Bool) :
+    ∀ e ∈ coll.docs, e.2 ∈ candidates w c (coll.docs.map (·.2)) (.idxAll f rev) := by
+  obtain ⟨_, hcw⟩ := wf_lookup_clean s hw c coll hl
+  obtain ⟨pre, post, E, hdec, hpre, hpost, hE, _, hperm⟩ := store_shape s w hw hr c coll hl f hf hdom
+  have hids : iterateAllP w c f rev = (if rev then E.reverse else E).map (·.2) := by
+    rw [hdec]; exact iterateAllP_exact c f pre post E hpre hpost hE rev
+  intro e he
+  have hld : Spec.lookup e.1 coll.docs = some e.2 := mem_lookup_some e.1 e.2 _ hcw.idsDistinct he
+  have hda := docAt_live s w hw hr c coll hl e.1 e.2 hld
+  have hin : (e.2.get f, e.1) ∈ E := hperm.mem_iff.2 (List.mem_map.2 ⟨e, he, rfl⟩)
+  simp only [candidates, hids]
+  refine List.mem_filterMap.2 ⟨e.1, ?_, hda⟩
+  cases rev with
+  | false => exact List.mem_map.2 ⟨_, hin, rfl⟩
+  | true => exact List.mem_map.2 ⟨_, List.mem_reverse.2 hin, rfl⟩
+
+/-- a range scan of a catalogued index fetches every document whose value passes the bound tests -/
+theorem idxRange_complete (s : Spec.State) (w : KVS) (hw : WF s) (hr : Rep s w) (c : Bytes) (coll : Spec.Coll)
+    (hl : Spec.lookup c s = some coll) (f : Bytes) (hf : f ∈ coll.indexes)
+    (hdom : ∀ e ∈ coll.docs, Dom numOK (e.2.get f)) (r : Range) (hrs : Dom numOK r.start) (hre : Dom numOK r.stop)
+    (rev : Bool) :
+    ∀ e ∈ coll.docs, Pl.inScan vord r.abs (e.2.get f) = true →
+      e.2 ∈ candidates w c (coll.docs.map (·.2)) (.idxRange f r rev) := by
+  obtain ⟨_, hcw⟩ := wf_lookup_clean s hw c coll hl
+  obtain ⟨pre, post, E, hdec, hpre, hpost, hE, hsorted, hperm⟩ := store_shape s w hw hr c coll hl f hf hdom
+  have hids : iterateRangeP w c f r rev =
+      (if rev then (E.filter (fun e => Pl.inScan vord r.abs e.1)).reverse
+       else E.filter (fun e => Pl.inScan vord r.abs e.1)).map (·.2) := by
+    rw [hdec]
+    cases rev with
+    | false =>
+      rw [iterateRangeP_fwd c f pre post E r hpre hpost hE hrs hre, Pl.scanFwd_exact vord r.abs E hsorted]
+      rfl
+    | true =>
+      rw [iterateRangeP_rev c f pre post E r hpre hpost hE hrs hre hsorted, Pl.scanRev_exact vord r.abs E hsorted]
+      rfl
+  intro e he hscan
+  have hld : Spec.lookup e.1 coll.docs = some e.2 := mem_lookup_some e.1 e.2 _ hcw.idsDistinct he
+  have hda := docAt_live s w hw hr c coll hl e.1 e.2 hld
+  have hin : (e.2.get f, e.1) ∈ E.filter (fun e => Pl.inScan vord r.abs e.1) :=
+    List.mem_filter.2 ⟨hperm.mem_iff.2 (List.mem_map.2 ⟨e, he, rfl⟩), hscan⟩
+  simp only [candidates, hids]
+  refine List.mem_filterMap.2 ⟨e.1, ?_, hda⟩
+  cases rev with
+  | false => exact List.mem_map.2 ⟨_, hin, rfl⟩
+  | true => exact List.mem_map.2 ⟨_, List.mem_reverse.2 hin, rfl⟩
+
+/-! ## 4. whatever the plan, the filtered candidates are the matching documents -/
+
+/-- **No plan misses a matching document**: every document of the collection that satisfies the
+    criteria is among the filtered candidates of the plan `choosePlan` builds — full scan, full
+    index iteration (sort served by an index) or index range scan, in either direction.
+    Domain: documents and criteria literals in the numeric domain (`AllNumKV numOK`, `CritOK`, what
+    planner soundness needs); indexed values and the bounds of the chosen range in the key domain
+    (`Dom numOK`, what scan exactness needs: additionally no time value before 1970). -/
+theorem findAll_complete_any_plan (s : Spec.State) (w : KVS) (hw : WF s) (hr : Rep s w) (q : Query) (coll : Spec.Coll)
+    (hl : Spec.lookup q.coll s = some coll)
+    (hdocs : ∀ e ∈ coll.docs, AllNumKV numOK e.2) (hcrit : ∀ cr, q.crit = some cr → CritOK cr)
+    (hdom : ∀ f ∈ coll.indexes, ∀ e ∈ coll.docs, Dom numOK (e.2.get f))
+    (hrange : ∀ f r, indexQuery coll.indexes q.crit = some (f, r) → Dom numOK r.start ∧ Dom numOK r.stop) :
+    ∀ d, d ∈ coll.docs.map (·.2) → satOpt likeFn fnFam d q.crit = true →
+      d ∈ (candidates w q.coll (coll.docs.map (·.2)) (choosePlan coll.indexes q).1).filter
+        (fun d => satOpt likeFn fnFam d q.crit) := by
+  intro d hd hsat
+  refine List.mem_filter.2 ⟨?_, hsat⟩
+  obtain ⟨e, he, ed⟩ := List.mem_map.1 hd
+  unfold choosePlan
+  cases hq : indexQuery coll.indexes q.crit with
+  | some p =>
+    obtain ⟨f, r⟩ := p
+    have hf := indexQuery_mem coll.indexes q.crit f r hq
+    obtain ⟨hrs, hre⟩ := hrange f r hq
+    have hscan : Pl.inScan vord r.abs (e.2.get f) = true := by
+      cases hc : q.crit with
+      | none => rw [hc] at hq; simp [indexQuery] at hq
+      | some cr =>
+        rw [hc] at hq hsat
+        rw [← ed] at hsat
+        exact planner_sound_model likeFn fnFam e.2 (hdocs e he) cr (hcrit cr hc) f hsat r
+          (indexQuery_range coll.indexes cr f r hq)
+    have hall : ∀ rev, d ∈ candidates w q.coll (coll.docs.map (·.2)) (.idxRange f r rev) := by
+      intro rev
+      rw [← ed]
+      exact idxRange_complete s w hw hr q.coll coll hl f hf (hdom f hf) r hrs hre rev e he hscan
+    simp only
+    split
+    · split <;> exact hall _
+    · exact hall _
+  | none =>
+    simp only
+    split
+    · split
+      · rename_i sf dir _ h
+        have hf : sf ∈ coll.indexes := by simpa using h
+        rw [← ed]
+        exact idxAll_complete s w hw hr q.coll coll hl sf hf (hdom sf hf) _ e he
+      · exact hd
+    · exact hd
+
+theorem nodup_of_map_nodup {α β : Type} (g : α → β) (l : List α) (h : (l.map g).Nodup) : l.Nodup :=
+  (List.pairwise_map.1 h).imp (fun h e => h (by rw [e]))
+
+/-- **Index transparency**: the filtered candidates of ANY plan are, up to order, the
+    specification's matching documents (`candidates_live` + `findAll_complete_any_plan`). -/
+theorem findAll_perm_any_plan (s : Spec.State) (w : KVS) (hw : WF s) (hr : Rep s w) (q : Query) (coll : Spec.Coll)
+    (hl : Spec.lookup q.coll s = some coll)
+    (hdocs : ∀ e ∈ coll.docs, AllNumKV numOK e.2) (hcrit : ∀ cr, q.crit = some cr → CritOK cr)
+    (hdom : ∀ f ∈ coll.indexes, ∀ e ∈ coll.docs, Dom numOK (e.2.get f))
+    (hrange : ∀ f r, indexQuery coll.indexes q.crit = some (f, r) → Dom numOK r.start ∧ Dom numOK r.stop) :
+    ((candidates w q.coll (coll.docs.map (·.2)) (choosePlan coll.indexes q).1).filter
+        (fun d => satOpt likeFn fnFam d q.crit)).Perm
+      ((coll.docs.map (·.2)).filter (fun d => satOpt likeFn fnFam d q.crit)) := by
+  have hplan := candidates_live s w hw hr q.coll coll hl (choosePlan coll.indexes q).1 (choosePlan_fieldIn coll.indexes q)
+  have hfull := candidates_live s w hw hr q.coll coll hl .full trivial
+  simp only [candidates] at hfull
+  simp only at hplan
+  have hnd1 := (List.filter_sublist (p := fun d => satOpt likeFn fnFam d q.crit)).nodup
+    (nodup_of_map_nodup Doc.objectId _ hplan.2)
+  have hnd2 := (List.filter_sublist (p := fun d => satOpt likeFn fnFam d q.crit)).nodup
+    (nodup_of_map_nodup Doc.objectId _ hfull.2)
+  refine (List.perm_ext_iff_of_nodup hnd1 hnd2).2 (fun a => ⟨?_, ?_⟩)
+  · intro ha
+    obtain ⟨hac, hsat⟩ := List.mem_filter.1 ha
+    have hld := hplan.1 a hac
+    exact List.mem_filter.2 ⟨List.mem_map.2 ⟨(a.objectId, a), lookup_some_mem _ _ _ hld, rfl⟩, hsat⟩
+  · intro ha
+    obtain ⟨had, hsat⟩ := List.mem_filter.1 ha
+    exact findAll_complete_any_plan likeFn fnFam s w hw hr q coll hl hdocs hcrit hdom hrange a had hsat
+
+/-! ## the bounds of the chosen range are in the key domain when the criteria literals are -/
+
+/-- literal operands in the key domain (`CritOK` + no time literal before 1970) -/
+def OperandDom : Operand → Prop
+  | .lit v => Dom numOK v
+  | .ref _ => True
+
+def CritDom : Crit → Prop
+  | .cmp _ _ x => OperandDom x
+  | .and a b => CritDom a ∧ CritDom b
+  | .or a b => CritDom a ∧ CritDom b
+  | .not a => CritDom a
+  | _ => True
+
+theorem negLeaf_dom (op : CmpOp) (f : Bytes) (x : Operand) (h : OperandDom x) : CritDom (negLeaf op f x) := by
+  cases op <;> simp [negLeaf, CritDom, h]
+
+mutual
+theorem flatten_dom : (c : Crit) → CritDom c → CritDom (flatten c)
+  | .cmp _ _ _, h => h
+  | .and a b, h => ⟨flatten_dom a h.1, flatten_dom b h.2⟩
+  | .or a b, h => ⟨flatten_dom a h.1, flatten_dom b h.2⟩
+  | .not a, h => flattenNot_dom a h
+  | .exists_ _, _ => trivial
+  | .like _ _, _ => trivial
+  | .isIn _ _, _ => trivial
+  | .contains _ _, _ => trivial
+  | .fn _, _ => trivial
+theorem flattenNot_dom : (c : Crit) → CritDom c → CritDom (flattenNot c)
+  | .cmp op f x, h => negLeaf_dom op f x h
+  | .and a b, h => ⟨flattenNot_dom a h.1, flattenNot_dom b h.2⟩
+  | .or a b, h => ⟨flattenNot_dom a h.1, flattenNot_dom b h.2⟩
+  | .not _, h => h
+  | .exists_ _, _ => trivial
+  | .like _ _, _ => trivial
+  | .isIn _ _, _ => trivial
+  | .contains _ _, _ => trivial
+  | .fn _, _ => trivial
+end
+
+def RangeKeyDom (r : Range) : Prop := Dom numOK r.start ∧ Dom numOK r.stop
+
+theorem toRange_dom (op : CmpOp) (x : Operand) (hx : OperandDom x) (r : Range) (h : toRange op x = some r) :
+    RangeKeyDom r := by
+  have hn : Dom numOK Value.null := by simp [Dom]
+  cases x with
+  | ref n => simp [toRange] at h
+  | lit v =>
+    have hv : Dom numOK v := hx
+    simp only [toRange] at h
+    split at h
+    · simp at h
+    · split at h
+      · simp at h
+      · cases op <;> simp only [Option.some.injEq] at h <;>
+          (rw [← h]; exact ⟨by first | exact hv | exact hn, by first | exact hv | exact hn⟩)
+
+theorem intersect_dom (r r2 : Range) (h1 : RangeKeyDom r) (h2 : RangeKeyDom r2) : RangeKeyDom (r.intersect r2) := by
+  unfold RangeKeyDom Range.intersect interStart interStop
+  constructor
+  · simp only; split
+    · exact h2.1
+    · split
+      · exact h1.1
+      · split
+        · exact h2.1
+        · exact h1.1
+  · simp only; split
+    · exact h2.2
+    · split
+      · exact h1.2
+      · split
+        · exact h2.2
+        · exact h1.2
+
+theorem fieldRange_dom (f : Bytes) : (c : Crit) → CritDom c → ∀ r, fieldRange f c = some r → RangeKeyDom r
+  | .cmp op g x, hc => by
+    intro r h
+    simp only [fieldRange] at h
+    split at h
+    · exact toRange_dom op x hc r h
+    · simp at h
+  | .and a b, hc => by
+    intro r h
+    have ha := fieldRange_dom f a hc.1
+    have hb := fieldRange_dom f b hc.2
+    simp only [fieldRange] at h
+    cases hra : fieldRange f a with
+    | none =>
+      cases hrb : fieldRange f b with
+      | none => rw [hra, hrb] at h; simp [mergeAnd] at h
+      | some r2 =>
+        rw [hra, hrb] at h; simp only [mergeAnd, Option.some.injEq] at h
+        rw [← h]; exact hb r2 hrb
+    | some r1 =>
+      cases hrb : fieldRange f b with
+      | none =>
+        rw [hra, hrb] at h; simp only [mergeAnd, Option.some.injEq] at h
+        rw [← h]; exact ha r1 hra
+      | some r2 =>
+        rw [hra, hrb] at h; simp only [mergeAnd, Option.some.injEq] at h
+        rw [← h]; exact intersect_dom r1 r2 (ha r1 hra) (hb r2 hrb)
+  | .or _ _, _ => fun r h => by simp [fieldRange] at h
+  | .not _, _ => fun r h => by simp [fieldRange] at h
+  | .exists_ _, _ => fun r h => by simp [fieldRange] at h
+  | .like _ _, _ => fun r h => by simp [fieldRange] at h
+  | .isIn _ _, _ => fun r h => by simp [fieldRange] at h
+  | .contains _ _, _ => fun r h => by simp [fieldRange] at h
+  | .fn _, _ => fun r h => by simp [fieldRange] at h
+
+/-- the range of the single index query has its bounds in the key domain -/
+theorem indexQuery_dom (indexed : List Bytes) (crit : Option Crit) (hc : ∀ cr, crit = some cr → CritDom cr)
+    (f : Bytes) (r : Range) (h : indexQuery indexed crit = some (f, r)) : Dom numOK r.start ∧ Dom numOK r.stop := by
+  cases crit with
+  | none => simp [indexQuery] at h
+  | some c =>
+    exact fieldRange_dom f (flatten c) (flatten_dom c (hc c rfl)) r (indexQuery_range indexed c f r h)
+
+/-- **Index transparency**, with the range hypothesis discharged from the criteria: documents and
+    criteria literals in the numeric domain, indexed values and criteria literals in the key domain. -/
+theorem findAll_perm_any_plan' (s : Spec.State) (w : KVS) (hw : WF s) (hr : Rep s w) (q : Query) (coll : Spec.Coll)
+    (hl : Spec.lookup q.coll s = some coll)
+    (hdocs : ∀ e ∈ coll.docs, AllNumKV numOK e.2) (hcrit : ∀ cr, q.crit = some cr → CritOK cr ∧ CritDom cr)
+    (hdom : ∀ f ∈ coll.indexes, ∀ e ∈ coll.docs, Dom numOK (e.2.get f)) :
+    ((candidates w q.coll (coll.docs.map (·.2)) (choosePlan coll.indexes q).1).filter
+        (fun d => satOpt likeFn fnFam d q.crit)).Perm
+      ((coll.docs.map (·.2)).filter (fun d => satOpt likeFn fnFam d q.crit)) :=
+  findAll_perm_any_plan likeFn fnFam s w hw hr q coll hl hdocs (fun cr h => (hcrit cr h).1) hdom
+    (indexQuery_dom coll.indexes q.crit (fun cr h => (hcrit cr h).2))
 
 end CV
